@@ -810,9 +810,9 @@ func c20PrefetchKeepsSource(c *Ctx, prop string) {
 		return
 	}
 	recv := f.Params[0]
-	fieldOf := func(v ssa.Value) string {
+	fieldOfRecv := func(v ssa.Value, rc ssa.Value) string {
 		fa, ok := v.(*ssa.FieldAddr)
-		if !ok || fa.X != ssa.Value(recv) {
+		if !ok || fa.X != rc {
 			return ""
 		}
 		st, ok := fa.X.Type().Underlying().(*types.Pointer).Elem().Underlying().(*types.Struct)
@@ -821,33 +821,54 @@ func c20PrefetchKeepsSource(c *Ctx, prop string) {
 		}
 		return st.Field(fa.Field).Name()
 	}
-	var endsInSource func(v ssa.Value, depth int) bool
-	endsInSource = func(v ssa.Value, depth int) bool {
-		if v == nil || depth > 8 {
+	fieldOf := func(v ssa.Value) string { return fieldOfRecv(v, recv) }
+	var endsInSourceIn func(v ssa.Value, rc ssa.Value, depth int) bool
+	endsInSourceIn = func(v ssa.Value, rc ssa.Value, depth int) bool {
+		if v == nil || depth > 10 {
 			return false
 		}
 		switch x := v.(type) {
 		case *ssa.MakeInterface:
-			return endsInSource(x.X, depth+1)
+			return endsInSourceIn(x.X, rc, depth+1)
 		case *ssa.ChangeInterface:
-			return endsInSource(x.X, depth+1)
+			return endsInSourceIn(x.X, rc, depth+1)
 		case *ssa.Phi:
 			for _, e := range x.Edges {
-				if !endsInSource(e, depth+1) {
+				if !endsInSourceIn(e, rc, depth+1) {
 					return false
 				}
 			}
 			return len(x.Edges) > 0
 		case *ssa.UnOp:
-			return x.Op == token.MUL && fieldOf(x.X) == "source"
+			return x.Op == token.MUL && fieldOfRecv(x.X, rc) == "source"
 		case *ssa.Call:
-			if cal := x.Call.StaticCallee(); cal != nil && cal.String() == "io.MultiReader" && len(x.Call.Args) == 1 {
+			cal := x.Call.StaticCallee()
+			if cal == nil {
+				return false
+			}
+			if cal.String() == "io.MultiReader" && len(x.Call.Args) == 1 {
 				el := variadicElems(x.Call.Args[0])
-				return len(el) > 0 && endsInSource(el[len(el)-1], depth+1)
+				return len(el) > 0 && endsInSourceIn(el[len(el)-1], rc, depth+1)
+			}
+			// a method of the same reader that builds the chain: every value it returns
+			if load.InModule(cal) && cal.Blocks != nil && len(x.Call.Args) >= 1 && x.Call.Args[0] == rc && len(cal.Params) >= 1 && cal.Signature.Results().Len() == 1 {
+				rets := 0
+				for _, b := range cal.Blocks {
+					for _, in := range b.Instrs {
+						if r, ok := in.(*ssa.Return); ok {
+							rets++
+							if !endsInSourceIn(r.Results[0], cal.Params[0], depth+1) {
+								return false
+							}
+						}
+					}
+				}
+				return rets > 0
 			}
 		}
 		return false
 	}
+	endsInSource := func(v ssa.Value, depth int) bool { return endsInSourceIn(v, recv, depth) }
 	stores := 0
 	var problems []string
 	for _, b := range f.Blocks {
